@@ -328,9 +328,10 @@ K("c10_report_from_bytes_boundary_imp", "C10", "report_hybrid", "report::hybrid"
 K("c10_report_from_bytes_boundary_conv", "C10", "report_hybrid", "report::hybrid", ["EncryptedHybridReport::from_bytes", "EncryptedHybridConversionReport::from_bytes"], "bounded",
   "same for the conversion variant", bound="the two boundary lengths", timeout=900)
 K("c10_impression_info_total", "C10", "report_hybrid_info", "report::hybrid_info", ["HybridImpressionInfo::from_bytes"], "complete", "total on len 0..=2; Err iff empty", min_covers=2)
-K("c10_conversion_info_enc_bytes_layout", "C10", "report_hybrid_info", "report::hybrid_info", ["HybridConversionInfo::to_enc_bytes"], "bounded",
-  "HPKE info = DOMAIN ++ HELPER_ORIGIN ++ site bytes unchanged ++ key_id ++ timestamp ++ epsilon ++ sensitivity (BE): every metadata bit is bound",
-  bound="site domain of 0..=3 ASCII bytes", min_covers=2, timeout=2400, tier="thorough")
+for n_ in (1, 2):
+    K("c10_conversion_info_enc_bytes_layout_n%d" % n_, "C10", "report_hybrid_info", "report::hybrid_info", ["HybridConversionInfo::to_enc_bytes"], "bounded",
+      "HPKE info = DOMAIN ++ HELPER_ORIGIN ++ site bytes unchanged ++ key_id ++ timestamp ++ epsilon ++ sensitivity (BE): every metadata bit is bound",
+      bound="site domain of exactly %d ASCII byte(s)" % n_, min_covers=2, timeout=1500, tier="quick")
 for n in (0, 1):
     K("c10_conversion_info_total_len%d" % n, "C10", "report_hybrid_info", "report::hybrid_info", ["HybridConversionInfo::from_bytes"], "bounded",
       "returns (never panics); Ok only for NUL-delimited records with a 25-byte tail", bound="len = %d, contents symbolic" % n, timeout=1500,
@@ -371,11 +372,9 @@ K("c17_chunk_unpack", "C17", "chunks", "helpers::stream::chunks", ["Chunk::unpac
 PROPS["C01"] = dict(
     level="other",
     decided=["pairing clause only: MatchEntry::{add_report,into_pair}: after k >= 1 reports into_pair() is Some([first, second]) iff k = 2",
-             "BOUNDED (<= 3 reports, 2 keys): group_report_pairs_ordered over the real BTreeMap returns one pair per key occurring exactly twice"],
-    undecided=["everything else in the pipeline: shuffle, PRF, reshard, aggregation circuits, noise, finalize; the end-to-end equality with the clear-text reference is NOT established by this machinery"],
+             ],
+    undecided=["group_report_pairs_ordered over the real BTreeMap (no verdict in 30 min even for 2-3 reports)", "everything else in the pipeline: shuffle, PRF, reshard, aggregation circuits, noise, finalize; the end-to-end equality with the clear-text reference is NOT established by this machinery"],
     trusted_base=[], assumptions=[],
     explanation="only the pairs-only grouping mechanism is under contract; the property's end-to-end statement is an interactive three-party protocol outside any function-level contract",
 )
 K("c01_match_entry", "C01", "agg", "protocol::hybrid::agg", ["MatchEntry::add_report", "MatchEntry::into_pair"], "complete", "Some([first, second]) iff exactly two reports", min_covers=2, timeout=900)
-K("c01_group_pairs_small", "C01", "agg", "protocol::hybrid::agg", ["group_report_pairs_ordered"], "bounded", "one pair per key occurring exactly twice, arrival order inside the pair",
-  bound="<= 3 reports, keys in {0,1}", min_covers=2, timeout=1800, tier="thorough")
